@@ -18,6 +18,7 @@ import (
 	"sort"
 	"strconv"
 	"strings"
+	"sync"
 	"unicode/utf16"
 	"unicode/utf8"
 
@@ -1146,16 +1147,114 @@ func (i *interpreter) parseSym(fr *frame, fn string, s symStr, k types.BasicKind
 		panic(unsupported{"strconv." + fn + " of a string containing a formatted symbolic number"})
 	}
 	c := i.ctx()
-	key := vecKey(s)
-	okT := c.Var("pok_"+fn+"_"+key, sym.Bool)
-	valT := c.Var("pval_"+fn+"_"+key, kindSort(k))
-	i.exactDecimal(fn, s, okT, valT, k)
+	var okT, valT *sym.Term
+	if len(s.b) <= 2 {
+		okT, valT = i.exactParse(fn, s, k)
+	} else {
+		key := vecKey(s)
+		okT = c.Var("pok_"+fn+"_"+key, sym.Bool)
+		valT = c.Var("pval_"+fn+"_"+key, kindSort(k))
+		i.exactDecimal(fn, s, okT, valT, k)
+	}
 	if i.truth(i.boolSym(okT)) {
 		return tuple{i.mkSym(valT, k), iface{}}
 	}
+	// the repository only looks at NumError.Err (ErrSyntax / ErrRange are not distinguished here)
 	errSyntax := i.foreignGlobalValue("strconv", "ErrSyntax")
 	t := lookupType("strconv", "NumError")
 	return tuple{concreteOfKind(k, 0), iface{t: types.NewPointer(t), v: ptrTo(structure{fn, s, errSyntax})}}
+}
+
+// parseTable: all strings of a given length accepted by a strconv parser, with their values.
+type parseEntry struct {
+	s    string
+	bits uint64
+}
+
+var (
+	parseTabMu sync.Mutex
+	parseTabs  = map[string][]parseEntry{}
+)
+
+func parseNative(fn, s string) (uint64, bool) {
+	switch fn {
+	case "ParseFloat":
+		f, err := strconv.ParseFloat(s, 64)
+		return math.Float64bits(f), err == nil
+	case "ParseInt":
+		n, err := strconv.ParseInt(s, 0, 64) // the repository always parses with base 0
+		return uint64(n), err == nil
+	case "ParseUint":
+		n, err := strconv.ParseUint(s, 0, 64)
+		return n, err == nil
+	case "Atoi":
+		n, err := strconv.Atoi(s)
+		return uint64(n), err == nil
+	}
+	return 0, false
+}
+
+func parseTable(fn string, n int) []parseEntry {
+	parseTabMu.Lock()
+	defer parseTabMu.Unlock()
+	key := fn + "/" + strconv.Itoa(n)
+	if t, ok := parseTabs[key]; ok {
+		return t
+	}
+	var out []parseEntry
+	buf := make([]byte, n)
+	var rec func(p int)
+	rec = func(p int) {
+		if p == n {
+			if bits, ok := parseNative(fn, string(buf)); ok {
+				out = append(out, parseEntry{string(buf), bits})
+			}
+			return
+		}
+		for b := 0; b < 256; b++ {
+			buf[p] = byte(b)
+			rec(p + 1)
+		}
+	}
+	rec(0)
+	parseTabs[key] = out
+	return out
+}
+
+// exactParse: exact verdict and value for strings of at most 2 bytes, from
+// the natively enumerated table of accepted strings (ParseInt/ParseUint in base 0).
+func (i *interpreter) exactParse(fn string, s symStr, k types.BasicKind) (*sym.Term, *sym.Term) {
+	c := i.ctx()
+	tab := parseTable(fn, len(s.b))
+	okT := c.False
+	var valT *sym.Term
+	if kindIsFloat(k) {
+		valT = c.F64Lit(0)
+	} else {
+		valT = c.BVLit(0, kindWidth(k))
+	}
+	for _, e := range tab {
+		eq := i.strEq(s, e.s)
+		var t *sym.Term
+		switch eq := eq.(type) {
+		case bool:
+			if !eq {
+				continue
+			}
+			t = c.True
+		case symVal:
+			t = eq.t
+		}
+		okT = c.Or(okT, t)
+		var lit *sym.Term
+		if kindIsFloat(k) {
+			lit = c.F64Lit(math.Float64frombits(e.bits))
+		} else {
+			lit = c.BVLit(e.bits, kindWidth(k))
+		}
+		valT = c.Ite(t, lit, valT)
+	}
+	return okT, valT
 }
 
 func vecKey(s symStr) string {
